@@ -366,6 +366,21 @@ def bounded_walk(ctx):
                 if got != want: fails.append(dict(sentence=str(s), new=str(pnew), old=str(pold), got=str(got), want=str(want)))
             except Exception as e:
                 fails.append(dict(sentence=str(s), new=str(pnew), old=str(pold), exception=repr(e)))
+    # the same with parameters that are EQUAL to the ones inside the sentence but other objects (the item cache is a bounded
+    # FIFO, not an interning table): identity comparisons in the code under test show up here
+    from bounded.args import distinct_equal, roll_cache
+    fresh = {p: distinct_equal(p) for p in params}
+    if all(fresh[p] is not p for p in params):
+        step = max(1, len(sents) // 60)
+        for s in sents[::step]:
+            for pnew, pold in itertools.product(params, repeat=2):
+                n += 1
+                try:
+                    got = s.substitute(pnew, fresh[pold])
+                    want = spec_subst_all(s, pold, pnew)
+                    if got != want: fails.append(dict(sentence=str(s), new=str(pnew), old=str(pold), got=str(got), want=str(want), note='old parameter passed as an equal but non-identical object'))
+                except Exception as e:
+                    fails.append(dict(sentence=str(s), new=str(pnew), old=str(pold), exception=repr(e), note='old parameter passed as an equal but non-identical object'))
     ctx.bounded_part(evaluations=n, distinct_nontrivial=len(sents), rule='sentences to depth 2 over {A, Fa, Fx, Gab, Gxa, Gxy, Gxx, a=x} with negation, both quantifiers, conjunction; every derived attribute and every (new, old) parameter pair over {a,b,x,y} compared with a direct structural recursion; distinct = sentences',
                      bound='depth <= 2' + (' + sampled depth 3' if ctx.thorough else ''), samples=[dict(sentence=str(sents[20])), dict(sentence=str(sents[-1]))] + fails[:3], label='structural walk')
     for f in fails[:5]:
